@@ -42,6 +42,31 @@ def g_pan_env(freq=440, gate=1, pan=0):
     u.Out.ar(0, u.Pan2.ar(u.LPF.ar(u.Saw.ar(freq), freq * 4) * env, pan))
 
 
+_ENV = []
+POINTS = [[0, 0], [0.1, 1], [1, 0]]
+
+
+def g_env_shared(freq=300, gate=1):
+    # an Env made once by the user (module level) and used - also through
+    # range() - by every build of this function
+    u = _u()
+    import sc3.synth.envelope as evp
+    if not _ENV:
+        _ENV.append(evp.Env.perc(0.01, 0.5))
+    base = _ENV[0]
+    a = u.EnvGen.kr(base.range(0, 0.5), gate)
+    b = u.EnvGen.kr(base, gate, done_action=2)
+    u.Out.ar(0, u.SinOsc.ar(freq) * a * b)
+
+
+def g_env_pairs(freq=300, gate=1):
+    # break points kept by the user and handed to Env.pairs by every build
+    u = _u()
+    import sc3.synth.envelope as evp
+    e = u.EnvGen.kr(evp.Env.pairs(POINTS, 'lin'), gate, done_action=2)
+    u.Out.ar(0, u.SinOsc.ar(freq) * e)
+
+
 def g_shared(freq=200):
     u = _u()
     osc = u.SinOsc.ar(freq)
@@ -227,6 +252,8 @@ CORPUS = {
     'factory_a': (g_factory_a, {}),
     'factory_b': (g_factory_b, {}),
     'factory_c': (g_factory_c, {}),
+    'env_shared': (g_env_shared, {}),
+    'env_pairs': (g_env_pairs, {}),
 }
 
 
